@@ -958,7 +958,13 @@ fn dump_crate<'tcx>(tcx: TyCtxt<'tcx>, name: &str) -> J {
                 ]));
             }
             DefKind::TyAlias => {
-                let t = tcx.type_of(did).instantiate_identity().skip_norm_wip();
+                let mut t = tcx.type_of(did).instantiate_identity().skip_norm_wip();
+                if tcx.generics_of(did).count() == 0 {
+                    // evaluate type-level constants such as ArrayBuf<{ 8 * 1024 }>
+                    if let Ok(n) = tcx.try_normalize_erasing_regions(TypingEnv::fully_monomorphized(), tcx.type_of(did).instantiate_identity()) {
+                        t = n;
+                    }
+                }
                 let vis = tcx.visibility(did);
                 aliases.push(J::obj(vec![
                     ("def", J::s(&path(tcx, did))),
